@@ -24,7 +24,34 @@ def _is_as(kind, b):
     return _impl().is_base58check(x)
 
 
+from cliutil import fmt_in as _fmt_in, fmt_out as _fmt_out, result as _cli_result   # noqa: E402
+
+
+def _cli_enc(b, fmt, check):
+    import cli
+    argv = ["base58"] + (["--check"] if check else []) + ["-1", fmt]
+    return _cli_result(cli.run_main(argv, stdin=_fmt_in(b, fmt)))
+
+
+def _cli_dec(s, fmt, check, pr):
+    import cli, os
+    argv = ["base58", "--decode"] + (["--check"] if check else []) + (["--print"] if pr else [])
+    # the sub-parser has no -0 option: the output format comes from the configuration file
+    out = _cli_result(cli.run_main(argv, stdin=s, config_json={"output_format": fmt}))
+    if pr:          # --print appends os.linesep to the decoded bytes before they are formatted
+        d = _fmt_out(out, fmt)
+        nl = os.linesep.encode()
+        if not d.endswith(nl):
+            raise RuntimeError("CliPrintNewlineMissing")
+        return d[:-len(nl)]
+    return _fmt_out(out, fmt)
+
+
 IMPL = {
+    "cli_base58encode": lambda b, fmt: _cli_enc(b, fmt, False),
+    "cli_base58check": lambda b, fmt: _cli_enc(b, fmt, True),
+    "cli_base58decode": lambda s, fmt, pr: _cli_dec(s, fmt, False, pr),
+    "cli_base58check_decode": lambda s, fmt, pr: _cli_dec(s, fmt, True, pr),
     "is_base58check_as": _is_as,
     "base58encode": lambda b: _impl().base58encode(b),
     "base58decode": lambda s: _impl().base58decode(s),
@@ -110,6 +137,20 @@ def gen_cases(rng, tier):
     for kind in ("memoryview", "list", "tuple", "str"):
         for sv in (valid[:3] + validc[:6] + [b"", b"0", b"\xff\xfe", b"1111"]):
             out.append(case("is-other-type-" + kind, "is_base58check_as", kind, sv, expect=("ok", False)))
+    # the `bits base58` subcommand = the library functions = the model, in every input / output format
+    k = 0
+    for d in datas[:8] + datas[-(60 if T else 14):]:
+        fmt = ("raw", "hex", "bin")[k % 3]
+        k += 1
+        out.append(case("cli-enc-" + fmt, "cli_base58encode", d, fmt))
+        out.append(case("cli-check-" + fmt, "cli_base58check", d, fmt))
+    cl = [s for s in strs if s[0] in ("valid", "subst", "subst-bad", "insert-bad", "delete", "transpose", "short", "lead1")]
+    for cls, s in (cl[:6] + cl[78:84] + cl[158:164] + rng.sample(cl, 120 if T else 24)):
+        fmt = ("raw", "hex", "bin")[k % 3]
+        k += 1
+        pr = (k // 3) % 4 == 0
+        out.append(case("cli-dec-" + cls, "cli_base58decode", s, fmt, pr, strict=True))
+        out.append(case("cli-cdec-" + cls, "cli_base58check_decode", s, fmt, pr, strict=True))
     for cls, s in strs:
         out.append(case("dec-" + cls, "base58decode", s, strict=True))
         out.append(case("cdec-" + cls, "base58check_decode", s, strict=True))
@@ -117,12 +158,20 @@ def gen_cases(rng, tier):
     return out
 
 
+def model_call(c):
+    """the CLI ops are judged by the model function of the library call they wrap"""
+    op = c["op"]
+    if op.startswith("cli_"):
+        return "c07_" + op[4:], c["args"][:1]
+    return "c07_" + op, c["args"]
+
+
 def shrink(c):
     if c["op"] == "is_base58check_as":
         return
     for b in shrink_bytes(c["args"][0]):
         c2 = dict(c)
-        c2["args"] = [b]
+        c2["args"] = [b] + list(c["args"][1:])
         yield c2
 
 
@@ -137,6 +186,20 @@ def prop_oracle(c):
         return None if isinstance(r, bool) else "is_base58check returned a non-boolean"
     x = c["args"][0]
     op = c["op"]
+    if op.startswith("cli_"):
+        lib = getattr(m, op[4:])
+        try:
+            want = ("ok", lib(x))
+        except Exception as e:
+            want = ("err", type(e).__name__)
+        try:
+            got = ("ok", IMPL[op](*c["args"]))
+        except Exception as e:
+            got = ("err", type(e).__name__)
+        if got != want:
+            return "`bits base58` (%s, format %s) gives %r where bits.base58.%s gives %r" % (
+                op, c["args"][1], got, op[4:], want)
+        op = op[4:]
     if op in ("base58encode", "base58check"):
         e = m.base58encode(x)
         if m.base58decode(e) != x:
@@ -183,7 +246,7 @@ def prop_oracle(c):
 
 
 def coq_equation(c, mr):
-    if c["op"] == "is_base58check_as":
+    if c["op"] == "is_base58check_as" or c["op"].startswith("cli_"):
         return None
     """the same computation as a Coq term, for the vm_compute cross-check of the extraction"""
     a = coq_bytes(c["args"][0])
